@@ -23,7 +23,7 @@ RULE = ("point sets: continuous (several scales), integer grids, dyadic grids (p
         "constant columns, adjacent doubles; 1-4 columns, 1-150 rows; count_ubound in {0,1,2,3,5,8,20}; cutpoint_proportion_lbound in "
         "{0,1e-9,.01,.1,.25,.5,.9,1,2}; then 2-7 fill/reset(0) operations under ids build/a/b/c with and without reset (same / shifted "
         "distribution, the build data itself, subsets, empty samples, points exactly on the tree's split values); observables: "
-        "the whole tree, leaves order, leaf_counts per id, kl_distance, to_plotly_dataframe rows, _distn_from_counts. "
+        "the whole tree, leaves order, leaf_counts per id, kl_distance (also asked after the build and after every operation: each answer is the divergence of the counts held at that moment), to_plotly_dataframe rows, _distn_from_counts. "
         "Non-trivial: the tree has at least one split and at least one fill was executed; distinct by case content. "
         "Adjacent-doubles families (columns made of 2-3 consecutive doubles, alone or as a tight cluster inside spread-out "
         "data, both rounding parities of the midpoint) aim at the clause `midpoint >= max` of the stop rule; the two former "
@@ -111,6 +111,20 @@ def run_impl(case):
         return {"recursion": True}
     obs = {"tree0": snap(root), "leafc0": leafc(p)}
     obs["leaves_match"] = [id(x) for x in p.leaves] == [id(x) for x in tree_leaves(p.node, [])]
+    def kl_now(pairs):
+        # kl_distance is an observation: asking for it between operations must not change anything, and each answer
+        # must be the divergence of the counts held at that moment (not of counts cached at an earlier call)
+        out = []
+        for a, b in pairs:
+            rec = {"ids": [a, b]}
+            try:
+                v = p.kl_distance(IDNAME[a], IDNAME[b])
+                rec["val"] = None if v is None else float(v)
+            except KeyError:
+                rec["err"] = "KeyError"
+            out.append(rec)
+        return out
+    obs["kls0"] = kl_now([[0, 0]])
     steps = []
     for o in case["ops"]:
         if o["k"] == "fill":
@@ -120,6 +134,7 @@ def run_impl(case):
             p.reset(value=o["value"], tree_id=IDNAME[o["id"]])
             ok = True
         steps.append({"tree": snap(p.node), "leafc": leafc(p), "ret_ok": ok})
+        steps[-1]["kls"] = kl_now([[0, o["id"]], [o["id"], 0], [o["id"], o["id"]]])
     obs["steps"] = steps
     obs["leaves_match_end"] = [id(x) for x in p.leaves] == [id(x) for x in tree_leaves(p.node, [])]
     # kl_distance
@@ -351,23 +366,33 @@ def direct_check(case, obs):
                 return [f"_distn_from_counts({cs}) = {hist}: not (c + 0.5) / (total + n/2)"]
         if abs(sum(Fraction(h) for h in hist) - 1) > Fraction(len(cs) * 4, 2 ** 53):
             return [f"_distn_from_counts({cs}) does not sum to one"]
-    for rec in obs["kls"]:
-        a, b = rec["ids"]
-        ca, cb = lcN[str(a)], lcN[str(b)]
-        if ca == "KeyError" or cb == "KeyError":
-            if rec.get("err") != "KeyError":
-                return [f"kl_distance({IDNAME[a]},{IDNAME[b]}) = {rec.get('val')} although an id was never filled"]
-            continue
-        if "err" in rec or rec["val"] is None:
-            return [f"kl_distance({IDNAME[a]},{IDNAME[b]}) unavailable: {rec}"]
-        ex = kl_exact(ca, cb)
-        v = rec["val"]
-        if not v >= 0:
-            return [f"kl_distance({IDNAME[a]},{IDNAME[b]}) = {v!r} is negative (counts {ca} / {cb})"]
-        if ca == cb and v != 0:
-            return [f"kl_distance of equal counts {ca} is {v!r}, not 0"]
-        if not close(v, ex):
-            return [f"kl_distance({IDNAME[a]},{IDNAME[b]}) = {v!r}, corrected KL divergence of {ca} / {cb} is {ex:.20e}"]
+    def check_kls(recs, lc, when):
+        for rec in recs:
+            a, b = rec["ids"]
+            ca, cb = lc[str(a)], lc[str(b)]
+            if ca is None or cb is None:
+                continue        # no leaves: kl_distance returns None
+            if ca == "KeyError" or cb == "KeyError":
+                if rec.get("err") != "KeyError":
+                    return [f"{when}kl_distance({IDNAME[a]},{IDNAME[b]}) = {rec.get('val')} although an id was never filled"]
+                continue
+            if "err" in rec or rec["val"] is None:
+                return [f"{when}kl_distance({IDNAME[a]},{IDNAME[b]}) unavailable: {rec}"]
+            ex = kl_exact(ca, cb)
+            v = rec["val"]
+            if not v >= 0:
+                return [f"{when}kl_distance({IDNAME[a]},{IDNAME[b]}) = {v!r} is negative (counts {ca} / {cb})"]
+            if ca == cb and v != 0:
+                return [f"{when}kl_distance of equal counts {ca} is {v!r}, not 0"]
+            if not close(v, ex):
+                return [f"{when}kl_distance({IDNAME[a]},{IDNAME[b]}) = {v!r}, corrected KL divergence of {ca} / {cb} is {ex:.20e}"]
+        return None
+    bad = check_kls(obs.get("kls0", []), obs["leafc0"], "after build: ")
+    for j, st in enumerate(obs["steps"]):
+        bad = bad or check_kls(st.get("kls", []), st["leafc"], f"after op {j}: ")
+    bad = bad or check_kls(obs["kls"], lcN, "")
+    if bad:
+        return bad
     # ---- to_plotly_dataframe
     nodesN = boxes(tN, m)
     par = {}
